@@ -18,6 +18,19 @@ KW = [("solid_angle: positive octant of edge 1e-3 seen from the origin, lengths 
       ("solid_angle: centroid of triangle (0.3,0.1,0.7),(0.9,0.2,0.1),(0.2,0.8,0.3), lengths * 1024 (rounding noise of the volume > 1e-10)", 1, [], [CEN] + TRI, 1024.0),
       ("analyticD3::f: centroid of triangle (0.3,0.1,0.7),(0.9,0.2,0.1),(0.2,0.8,0.3), lengths * 1024", 4, [], TRI + [CEN], 1024.0)]
 
+def load_corpus():
+    """kernel witnesses from corpus/C03.txt (label ; op ; s ; ints ; floats), falling back to the built-in list"""
+    path = os.path.join(core.VERIF, "corpus", "C03.txt"); out = []
+    if os.path.exists(path):
+        for line in open(path):
+            line = line.strip()
+            if not line or line.startswith("#"): continue
+            f = [x.strip() for x in line.split(";")]
+            if len(f) != 5: continue
+            fl = [float(x) for x in f[4].split()]
+            out.append((f[0], int(f[1]), [int(x) for x in f[3].split()], [tuple(fl[i:i + 3]) for i in range(0, len(fl), 3)], float(f[2])))
+    return out or KW
+
 def witness_model():
     import random
     rng = random.Random(31337)
@@ -39,13 +52,13 @@ def main(replay=None):
         hc.replay_any(ck, hb, json.load(open(replay)), "rescaled")
         return ck.finish()
     # 1. kernel-level witnesses of the repaired threshold (replay of the pinned-form refutation on the real kernels)
-    lines = []
-    for label, op, ints, args, s in KW:
+    kw = load_corpus(); lines = []
+    for label, op, ints, args, s in kw:
         lines.append(hc.kline(op, ints, [x for a in args for x in a]))
         lines.append(hc.kline(op, ints, [x * s for a in args for x in a]))
     rc, outs, err = core.run_harness(hb, lines, ck.workdir, tag="kw")
     wres = []
-    for n, (label, op, ints, args, s) in enumerate(KW):
+    for n, (label, op, ints, args, s) in enumerate(kw):
         z0, f0 = core.fparse(outs[2 * n]); z1, f1 = core.fparse(outs[2 * n + 1])
         r = (-2, z0, z1) if (not z0 or not z1 or z0 != z1) else hc.kernel_compare(op, f0, f1, None, s, 1.0)
         wres.append(dict(witness=label, reference=f0, rescaled=f1, obeys_law=r is None))
